@@ -29,6 +29,7 @@ struct EncResult {
 	std::string error, error_cls;
 	bool ended_early = false;
 	bool refused = false;              // a flush/update was refused and the session stopped
+	bool delayed_refusal = false;      // the threaded encoder said LZMA_OK to a chain it can only refuse later
 	uint64_t calls = 0;
 	uint64_t max_progress_out = 0;
 	size_t consumed = 0;
@@ -164,7 +165,8 @@ static void run_session(const Plan &plan, const Bytes &input, bool canonical, Si
 			size_t in_n = act == LZMA_RUN ? in_each : ss.in_left();
 			lzma_ret rr = ss.step(in_n, out_each, act);
 			if (!ret_is_public(rr)) { res.error = fmt("internal status %d leaked", (int)rr); res.error_cls = "internal-ret"; return false; }
-			if (plan.p("poll_progress", 0)) check_progress();
+			// (after a fatal status the handle is dead and the property says nothing about its progress figures)
+			if (plan.p("poll_progress", 0) && (rr == LZMA_OK || rr == LZMA_STREAM_END || rr == LZMA_BUF_ERROR || (int)rr == 101 /* LZMA_TIMED_OUT (internal value; public calls see LZMA_OK) */)) check_progress();
 			if (rr == LZMA_STREAM_END) { res.status = rr; return true; }
 			if (rr == LZMA_BUF_ERROR && out_each == 0) continue;   // our own stall; not fatal
 			if (rr != LZMA_OK) { res.status = rr; return false; }
@@ -218,6 +220,44 @@ restart:
 				c->f[n].id = LZMA_VLI_UNKNOWN; c->f[n].options = nullptr;
 				f = c->f;
 			}
+			if (int bad = (int)op.get("bad", 0)) {
+				// a chain the encoder must refuse, whenever it is offered; the
+				// encoder has to go on with the chain it had
+				Chain b;
+				b.lz = es.chain.lz; b.lz.preset_dict = nullptr; b.lz.preset_dict_size = 0;
+				b.bcj.start_offset = 0; b.delta.type = LZMA_DELTA_TYPE_BYTE; b.delta.dist = 1;
+				int n = 0;
+				lzma_vli last = es.chain.lzma1 ? LZMA_FILTER_LZMA1 : LZMA_FILTER_LZMA2;
+				switch (bad) {
+				case 1: b.lz.lc = 4; b.lz.lp = 1; break;
+				case 2: b.lz.dict_size = 100; break;
+				case 3: b.bcj.start_offset = 2; b.f[n].id = LZMA_FILTER_ARM; b.f[n].options = &b.bcj; ++n; break;   // passes the memory-usage validation, fails in the filter's init
+				case 4: b.bcj.start_offset = 1 + 2 * (uint32_t)op.get("dist", 1); b.f[n].id = LZMA_FILTER_ARM64; b.f[n].options = &b.bcj; ++n; break;
+				case 5: b.delta.dist = 257; b.f[n].id = LZMA_FILTER_DELTA; b.f[n].options = &b.delta; ++n; break;
+				case 6: b.lz.nice_len = 1; break;
+				case 7: b.lz.mf = (lzma_match_finder)0x55; break;
+				case 8: b.f[n].id = 0x4000000000000123ull; b.f[n].options = nullptr; ++n; break;
+				case 9: b.f[n].id = last; b.f[n].options = &b.lz; ++n; break;   // LZMA2 twice: only valid as the last filter
+				default: b.bcj.start_offset = 3; b.f[n].id = LZMA_FILTER_POWERPC; b.f[n].options = &b.bcj; ++n; break;
+				}
+				b.f[n].id = last; b.f[n].options = &b.lz; ++n;
+				b.f[n].id = LZMA_VLI_UNKNOWN; b.f[n].options = nullptr;
+				lzma_ret ur = lzma_filters_update(&ss.s, b.f);
+				v.count("reach.filters_update_bad_chain_offered");
+				// Mid-Block only LZMA2's lc/lp/pb are looked at and everything else in
+				// the offered chain is ignored by design, so LZMA_OK is an error only
+				// for the kinds that are invalid in that reading too.
+				if (ur == LZMA_OK && (bad == 1 || bad == 8)) { res.error = fmt("lzma_filters_update accepted an invalid chain (kind %d)", bad); res.error_cls = "bad-update-accepted"; break; }
+				// The threaded encoder validates a new chain only roughly (memory-usage
+				// calculation) and reports the rest from a later lzma_code() - the
+				// documented "delayed error" of lzma_stream_encoder_mt(); that late
+				// LZMA_OPTIONS_ERROR is the refusal.
+				if (ur == LZMA_OK && es.kind == EK_STREAM_MT) { res.delayed_refusal = true; v.count("reach.filters_update_bad_chain_delayed_refusal"); continue; }
+				if (ur == LZMA_OK) { v.count("reach.filters_update_bad_chain_ignored_midblock"); continue; }
+				if (ur != LZMA_OPTIONS_ERROR && ur != LZMA_PROG_ERROR && ur != LZMA_MEM_ERROR) { res.error = fmt("filters_update returned %s", ret_name(ur)); res.error_cls = "update-status"; break; }
+				++res.updates_refused;
+				continue;
+			}
 			lzma_options_lzma saved = c->lz;
 			if (op.has("lc")) { c->lz.lc = (uint32_t)op.get("lc"); c->lz.lp = (uint32_t)op.get("lp"); c->lz.pb = (uint32_t)op.get("pb"); }
 			if (op.has("dict")) c->lz.dict_size = (uint32_t)op.get("dict");
@@ -258,6 +298,7 @@ restart:
 			res.error_cls = "progress";
 		}
 	}
+	if (!finished && res.delayed_refusal && res.status == LZMA_OPTIONS_ERROR) res.refused = true;
 	if (!finished && res.error.empty() && !res.ended_early && !res.refused) {
 		res.error = fmt("session ended with status %s", ret_name(res.status)); res.error_cls = "enc-status";
 	}
@@ -514,6 +555,13 @@ static void gen_history(Rng &rng, Plan &plan, size_t len, bool sync_ok, bool ful
 				}
 				plan.ops.push_back(u);
 			}
+		} else if (k == 8 && update_ok && rng.chance(500)) {
+			// a chain that must be refused, at any moment (first call, between
+			// Blocks, right after an accepted change, mid-Block)
+			if (full_ok && rng.chance(300)) { Op f0("flush"); f0.set("kind", (int64_t)LZMA_FULL_BARRIER).set("n", 0); plan.ops.push_back(f0); }
+			if (rng.chance(300)) { Op u0("update"); u0.set("chain2", 1).set("dist", (int64_t)rng.below(256)); plan.ops.push_back(u0); }
+			Op u("update"); u.set("bad", (int64_t)(1 + rng.below(10))).set("dist", (int64_t)rng.below(8));
+			plan.ops.push_back(u);
 		} else if (k == 8) {
 			plan.ops.push_back(Op("progress"));
 		} else if (update_ok && rng.chance(300)) {
